@@ -19,7 +19,8 @@ META = {
     "group order x,u,d then parameters in declared order; each result component is the successor of the "
     "state component at the same flat position; flat order = documented concatenation in the network's "
     "element enumeration; names and values have equal length; no option allows free symbols"
-    " the order of an element's variables is the same whether the engine creates them, the caller supplies all of them (in another key order) or only some; a compilation after an earlier one (with the extra outputs) has the signature of a fresh one; a 12-segment link with clamped initial states (entry names stop sorting like indices); the sampling time declared as a symbolic parameter; constructor conformance for links",
+    " the order of an element's variables is the same whether the engine creates them, the caller supplies all of them (in another key order) or only some; a compilation after an earlier one (with the extra outputs) has the signature of a fresh one; a 12-segment link with clamped initial states (entry names stop sorting like indices); the sampling time declared as a symbolic parameter; constructor conformance for links"
+    "; after the real init_vars every element has exactly the documented variables; a declared parameter with two entries",
     "explanation": "Engine.to_function, _filter_vars, _gather_inputs/_gather_outputs, "
     "_add_parameters_to_inputs and the Network enumeration properties are interpreted from source on a "
     "network with three links (one with VSL, one single-segment), three origins and a congested destination "
